@@ -244,7 +244,11 @@ def work(chunk):
             col.outcomes[(m.project.time - n)] += 1
             if len(hist) < depth:
                 n2 = m.project.time
-                for op in [("insert", L) for L in index_lists(n2, tier)] + [("remove",)]:
+                lists = index_lists(n2, tier)
+                if len(hist) >= 2:
+                    # third level: single indices and 'remove' only (the full alphabet is explored on the first two levels)
+                    lists = [L for L in lists if len(L) == 1]
+                for op in [("insert", L) for L in lists] + [("remove",)]:
                     frontier.append(hist + (op,))
         if len(col.samples) < 2:
             col.samples.append({"model": label, "sim_absence": list(sim_absence), "first_level_ops": [list(o) for o in ops[:6]]})
